@@ -7,7 +7,6 @@ import (
 
 	"github.com/dominant-strategies/go-quai/common"
 	"github.com/dominant-strategies/go-quai/core/types"
-	"github.com/dominant-strategies/go-quai/crypto"
 	"github.com/dominant-strategies/go-quai/p2p/pb"
 	"github.com/dominant-strategies/go-quai/params"
 	"github.com/dominant-strategies/go-quai/trie"
@@ -28,104 +27,109 @@ type entry struct {
 
 var testChainCfg = &params.ChainConfig{ChainID: big.NewInt(1337), Location: common.Location{0, 0}}
 
-// pokeTx: what the RPC layer, the pool and the block sanity checks do with a decoded transaction
-// before any state is consulted.
+// deepPoke enables the expensive steps (MuSig2 signature verification, sender recovery). The
+// callers switch it on for the unmutated tree and for mutations inside the data those steps read.
+var deepPoke = true
+
+// pokeTx: what block sanity checks, the pool and the RPC marshalling do with a decoded
+// transaction before any state is consulted. Accessors that are documented to panic for the
+// wrong transaction type are only used on the right type, as production does.
 func pokeTx(tx *types.Transaction, loc common.Location) {
 	if tx == nil {
 		return
 	}
-	_ = tx.Hash()
-	_ = tx.Hash(loc...)
-	_ = tx.Size()
-	_ = tx.Type()
-	_ = tx.To()
-	_ = tx.Data()
-	if p, err := tx.ProtoEncode(); err == nil {
-		proto.Marshal(p)
-	}
-	tx.MarshalJSON()
+	step(func() { _, _, _, _ = tx.Hash(), tx.Hash(loc...), tx.Size(), tx.Data() })
+	step(func() {
+		switch tx.Type() {
+		case types.QuaiTxType:
+			_, _, _, _, _ = tx.To(), tx.Nonce(), tx.GasPrice(), tx.Value(), tx.ChainId()
+			_ = tx.Cost()
+			if deepPoke {
+				types.Sender(types.LatestSignerForChainID(tx.ChainId(), loc), tx)
+			}
+		case types.ExternalTxType:
+			_, _, _, _ = tx.To(), tx.Value(), tx.ETXSender(), tx.EtxType()
+			_ = types.IsConversionTx(tx)
+		case types.QiTxType:
+			_, _, _ = tx.TxIn(), tx.TxOut(), tx.ChainId()
+			_ = tx.GetSchnorrSignature()
+			_ = types.IsConversionTx(tx)
+		}
+	})
+	step(func() {
+		if p, err := tx.ProtoEncode(); err == nil {
+			proto.Marshal(p)
+		}
+	})
+	step(func() { tx.MarshalJSON() })
 	// the transaction root of a body is an RLP encoding of every transaction (SanityCheck*Body)
-	types.DeriveSha(types.Transactions{tx}, trie.NewStackTrie(nil))
-	submitTransactionSteps(tx, loc)
-}
-
-// submitTransactionSteps transcribes internal/quaiapi.SubmitTransaction (reached from
-// quai_sendRawTransaction and workshare_receiveTxFromPoolSharingClient) up to the pool hand-over,
-// with an RPC fee cap of 1 ether (the default configuration).
-func submitTransactionSteps(tx *types.Transaction, loc common.Location) {
-	if tx.Type() == types.QiTxType {
-		return
-	}
-	feeEth := new(big.Float).Quo(new(big.Float).SetInt(new(big.Int).Mul(tx.GasPrice(), new(big.Int).SetUint64(tx.Gas()))), new(big.Float).SetInt(big.NewInt(params.Ether)))
-	if f, _ := feeEth.Float64(); f > 1 {
-		return
-	}
-	signer := types.MakeSigner(testChainCfg, big.NewInt(1))
-	from, err := types.Sender(signer, tx)
-	if err != nil {
-		return
-	}
-	if tx.To() == nil {
-		_ = crypto.CreateAddress(from, tx.Nonce(), tx.Data(), loc)
-		_, _, _ = tx.Hash().Hex(), tx.Nonce(), tx.Value()
-	} else {
-		_, _, _, _ = tx.Hash().Hex(), tx.Nonce(), tx.To(), tx.Value()
-	}
+	step(func() { types.DeriveSha(types.Transactions{tx}, trie.NewStackTrie(nil)) })
 }
 
 func pokeWoHeader(wh *types.WorkObjectHeader) {
 	if wh == nil {
 		return
 	}
-	_ = wh.Hash()
-	_ = wh.SealHash()
-	_ = wh.NumberU64()
-	_ = wh.Location()
-	_ = wh.PrimaryCoinbase()
-	if p, err := wh.ProtoEncode(); err == nil {
-		proto.Marshal(p)
-	}
-	json.Marshal(wh.RPCMarshalWorkObjectHeader("v2"))
+	step(func() { _ = wh.Hash() })
+	step(func() { _ = wh.SealHash() })
+	step(func() { _, _, _ = wh.NumberU64(), wh.Location(), wh.PrimaryCoinbase() })
+	step(func() {
+		if p, err := wh.ProtoEncode(); err == nil {
+			proto.Marshal(p)
+		}
+	})
+	step(func() { json.Marshal(wh.RPCMarshalWorkObjectHeader("v2")) })
+	step(func() { types.CopyWorkObjectHeader(wh) })
 	if ap := wh.AuxPow(); ap != nil {
 		pokeAuxPow(ap)
 	}
 }
 
 func pokeAuxPow(ap *types.AuxPow) {
-	_ = ap.PowID()
-	if h := ap.Header(); h != nil {
-		_ = h.Timestamp()
-		_ = h.MerkleRoot()
-		_ = h.PowHash()
-		_ = h.Bytes()
-	}
-	proto.Marshal(ap.ProtoEncode())
-	json.Marshal(ap.RPCMarshal())
+	step(func() {
+		_ = ap.PowID()
+		if h := ap.Header(); h != nil {
+			_ = h.Timestamp()
+			_ = h.MerkleRoot()
+			_ = h.PowHash()
+			_ = h.Bytes()
+		}
+	})
+	step(func() { proto.Marshal(ap.ProtoEncode()) })
+	step(func() { json.Marshal(ap.RPCMarshal()) })
 	// the share validator (and Core.SubmitBlock) run these on every AuxPoW that decodes
-	sig := types.ExtractScriptSigFromCoinbaseTx(ap.Transaction())
-	types.ExtractSignatureTimeFromCoinbase(sig)
-	types.ExtractSealHashFromCoinbase(sig)
-	types.ExtractHeightFromCoinbase(sig)
-	types.ExtractMerkleSizeAndNonceFromCoinbase(sig)
-	types.CalculateMerkleRoot(ap.PowID(), ap.Transaction(), ap.MerkleBranch())
-	types.ValidatePrevOutPointIndexAndSequenceOfCoinbase(ap.Transaction())
-	tpl := ap.ConvertToTemplate()
-	_ = tpl.Hash()
-	tpl.VerifySignature()
-	types.CopyAuxPow(ap)
+	step(func() {
+		sig := types.ExtractScriptSigFromCoinbaseTx(ap.Transaction())
+		step(func() { types.ExtractSignatureTimeFromCoinbase(sig) })
+		step(func() { types.ExtractSealHashFromCoinbase(sig) })
+		step(func() { types.ExtractHeightFromCoinbase(sig) })
+		step(func() { types.ExtractMerkleSizeAndNonceFromCoinbase(sig) })
+	})
+	step(func() { types.CalculateMerkleRoot(ap.PowID(), ap.Transaction(), ap.MerkleBranch()) })
+	step(func() { types.ValidatePrevOutPointIndexAndSequenceOfCoinbase(ap.Transaction()) })
+	step(func() {
+		tpl := ap.ConvertToTemplate()
+		_ = tpl.Hash()
+		if deepPoke {
+			tpl.VerifySignature()
+		}
+	})
+	step(func() { types.CopyAuxPow(ap) })
 }
 
 func pokeHeader(h *types.Header) {
 	if h == nil {
 		return
 	}
-	_ = h.Hash()
-	_ = h.NumberArray()
-	if p, err := h.ProtoEncode(); err == nil {
-		proto.Marshal(p)
-	}
-	json.Marshal(h.RPCMarshalHeader())
-	types.CopyHeader(h)
+	step(func() { _ = h.Hash() })
+	step(func() { _ = h.NumberArray() })
+	step(func() {
+		if p, err := h.ProtoEncode(); err == nil {
+			proto.Marshal(p)
+		}
+	})
+	step(func() { json.Marshal(h.RPCMarshalHeader()) })
+	step(func() { types.CopyHeader(h) })
 }
 
 // pokeWo: hash / identity accessors every consumer of a decoded work object uses first, the
@@ -135,41 +139,78 @@ func pokeWo(wo *types.WorkObject, view types.WorkObjectView) {
 	if wo == nil {
 		return
 	}
-	_ = wo.Hash()
-	_ = wo.SealHash()
-	_ = wo.Location()
-	_ = wo.Time()
+	step(func() { _, _, _, _ = wo.Hash(), wo.SealHash(), wo.Location(), wo.Time() })
 	pokeWoHeader(wo.WorkObjectHeader())
+	// A work object can decode without a body header (Block/Header view: header left nil; share
+	// views: a zero-value Header is installed). Every header-dependent accessor then panics: one
+	// root cause, reported under one fingerprint.
+	hdrGroup := ""
+	if wo.Body() != nil && (wo.Body().Header() == nil || hollowHeader(wo.Body().Header())) {
+		hdrGroup = "types.WorkObjectBody.ProtoDecode/body-header-absent"
+		if stepGroup != "" {
+			hdrGroup = stepGroup
+		}
+	}
+	hdr := func(f func()) {
+		if hdrGroup != "" {
+			grouped(hdrGroup, func() { step(f) })
+		} else {
+			step(f)
+		}
+	}
 	if wo.Body() != nil {
-		pokeHeader(wo.Body().Header())
-		for _, tx := range wo.Transactions() {
-			_ = tx.Hash()
+		if hdrGroup != "" {
+			grouped(hdrGroup, func() { pokeHeader(wo.Body().Header()) })
+		} else {
+			pokeHeader(wo.Body().Header())
 		}
-		for _, tx := range wo.OutboundEtxs() {
-			_ = tx.Hash()
-		}
-		for _, u := range wo.Uncles() {
-			_ = u.Hash()
-		}
-		types.CalcUncleHash(wo.Uncles())
-		types.DeriveSha(wo.Transactions(), trie.NewStackTrie(nil))
-		types.DeriveSha(wo.OutboundEtxs(), trie.NewStackTrie(nil))
-		types.DeriveSha(wo.Manifest(), trie.NewStackTrie(nil))
+		step(func() {
+			for _, tx := range wo.Transactions() {
+				_ = tx.Hash()
+			}
+			for _, tx := range wo.OutboundEtxs() {
+				_ = tx.Hash()
+			}
+			for _, u := range wo.Uncles() {
+				_ = u.Hash()
+			}
+		})
+		step(func() { types.CalcUncleHash(wo.Uncles()) })
+		step(func() { types.DeriveSha(wo.Transactions(), trie.NewStackTrie(nil)) })
+		step(func() { types.DeriveSha(wo.OutboundEtxs(), trie.NewStackTrie(nil)) })
+		step(func() { types.DeriveSha(wo.Manifest(), trie.NewStackTrie(nil)) })
 	}
-	if p, err := wo.ProtoEncode(view); err == nil {
-		proto.Marshal(p)
-	}
-	_ = wo.Size()
-	json.Marshal(wo.RPCMarshalWorkObject("v2"))
-	json.Marshal(wo.RPCMarshalHeader("v2"))
-	types.CopyWorkObject(wo)
+	hdr(func() {
+		if p, err := wo.ProtoEncode(view); err == nil {
+			proto.Marshal(p)
+		}
+	})
+	hdr(func() { _ = wo.Size() })
+	hdr(func() { json.Marshal(wo.RPCMarshalWorkObject("v2")) })
+	hdr(func() { json.Marshal(wo.RPCMarshalHeader("v2")) })
+	hdr(func() { types.CopyWorkObject(wo) })
+}
+
+// hollowHeader reports a zero-value Header (no slices allocated).
+func hollowHeader(h *types.Header) (hollow bool) {
+	defer func() {
+		if recover() != nil {
+			hollow = true
+		}
+	}()
+	_ = h.Number(0)
+	_ = h.ParentEntropy(0)
+	return false
 }
 
 func pokeAuxTemplate(at *types.AuxTemplate) {
-	at.VerifySignature()
-	_ = at.Hash()
-	_ = at.SignatureTime()
-	proto.Marshal(at.ProtoEncode())
+	step(func() {
+		if deepPoke {
+			at.VerifySignature()
+		}
+	})
+	step(func() { _, _ = at.Hash(), at.SignatureTime() })
+	step(func() { proto.Marshal(at.ProtoEncode()) })
 }
 
 // ---- the pure decode entry points --------------------------------------------------------------
@@ -414,11 +455,8 @@ func entSubWorkshare(loc common.Location) entry {
 func pureProtoEntries() map[string]entry {
 	m := map[string]entry{}
 	add := func(e entry) { m[e.name] = e }
-	add(entWoView("WorkObject.ProtoDecode/Block", types.BlockObject, zoneLoc))
-	add(entWoView("WorkObject.ProtoDecode/Header", types.HeaderObject, zoneLoc))
 	add(entWoView("WorkObject.ProtoDecode/PEtx", types.PEtxObject, zoneLoc))
 	add(entWoView("WorkObject.ProtoDecode/WorkShare", types.WorkShareObject, zoneLoc))
-	add(entWoView("WorkObject.ProtoDecode/WorkShareTx", types.WorkShareTxObject, zoneLoc))
 	add(entUnmarshalAndConvert("pb.UnmarshalAndConvert/BlockView", &types.WorkObjectBlockView{}, zoneLoc))
 	add(entUnmarshalAndConvert("pb.UnmarshalAndConvert/HeaderView", &types.WorkObjectHeaderView{}, zoneLoc))
 	add(entUnmarshalAndConvert("pb.UnmarshalAndConvert/ShareView", &types.WorkObjectShareView{}, zoneLoc))
@@ -434,3 +472,5 @@ func pureProtoEntries() map[string]entry {
 }
 
 var _ = bytes.Equal
+
+func newHasher() *trie.StackTrie { return trie.NewStackTrie(nil) }
